@@ -188,14 +188,18 @@ theorem wsum_eq {s : State} {h : Hash} {n : Node} (hl : lookup s.idx h = some n)
 theorem contains_false_ne_zero {l : List Hash} (h0 : l.contains 0 = true) {x : Hash} (hx : l.contains x = false) : x ≠ 0 := by
   intro e; subst e; rw [h0] at hx; cases hx
 
+/-- the first-seen rule, one step: the active chain is unchanged or its cumulative work strictly grew -/
+def TipAdv (s s' : State) : Prop := s'.best = s.best ∨ s.wsum s.tip < s'.wsum s'.tip
+
 /-- the result of `connectBestChain` for a freshly stored node -/
 theorem connectBest_spec {U D : List BlockAbs} {s : State} {n : Node} (hc : CInv U D s)
     (hl : lookup s.idx n.blk.hash = some n) (hd : (s.status n.blk.hash).data = true)
     (hnb : s.best.contains n.blk.hash = false) (hpk : (s.status n.blk.parent).knownInvalid = false)
-    (hmax : MaxExcept s n.blk.hash) :
+    (hmax : MaxExcept s n.blk.hash) (hwork : 0 < n.blk.work) :
     CInv U D (connectBest s n).1 ∧ MaxAll (connectBest s n).1 ∧ SameCore s (connectBest s n).1 ∧
       FlagExt s (connectBest s n).1 ∧
-      ((connectBest s n).2 = none → ((connectBest s n).1.status n.blk.hash).knownInvalid = true) := by
+      ((connectBest s n).2 = none → ((connectBest s n).1.status n.blk.hash).knownInvalid = true) ∧
+      TipAdv s (connectBest s n).1 := by
   have hz := pathOK_zero hc.path
   have hn0 : n.blk.hash ≠ 0 := contains_false_ne_zero hz hnb
   obtain ⟨hnU, p, hlp, hws, _⟩ := idxOK_node hc.idx hl hn0
@@ -203,7 +207,7 @@ theorem connectBest_spec {U D : List BlockAbs} {s : State} {n : Node} (hc : CInv
   have extend : ∀ s1 : State, SameChain s s1 → FlagExt s s1 → FlagsSound s1 →
       (s1.status n.blk.hash).valid = true → n.blk.parent = s.tip →
       CInv U D (connect s1 n.blk.hash) ∧ MaxAll (connect s1 n.blk.hash) ∧ SameCore s (connect s1 n.blk.hash) ∧
-        FlagExt s (connect s1 n.blk.hash) := by
+        FlagExt s (connect s1 n.blk.hash) ∧ TipAdv s (connect s1 n.blk.hash) := by
     intro s1 hsc hfe hfs hv hpt
     have hi : s1.idx = s.idx := hsc.1.1
     have hpath1 : PathOK s1 s1.best := by rw [hsc.2.1]; exact pathOK_ext hi hfe hc.path
@@ -222,7 +226,14 @@ theorem connectBest_spec {U D : List BlockAbs} {s : State} {n : Node} (hc : CInv
         refine PathOK.cons hn0 (by rw [hcon]; exact hl) (by rw [hpt, ht]) ?_ ?_ hps
         · rw [(hfe' _).1]; exact hd
         · rw [hstc]; exact hv
-    refine ⟨cinv_transport hc hcon hfe' (fs_congr (s := s1) (s' := connect s1 n.blk.hash) rfl rfl hfs) hp', ?_, ?_, hfe'⟩
+    have hadv : TipAdv s (connect s1 n.blk.hash) := by
+      right
+      have htip : (connect s1 n.blk.hash).tip = n.blk.hash := rfl
+      have hw : (connect s1 n.blk.hash).wsum n.blk.hash = n.workSum := by
+        apply wsum_eq; rw [hcon]; exact hl
+      have hwt : s.wsum s.tip = p.workSum := by rw [← hpt]; exact wsum_eq hlp
+      rw [htip, hw, hwt]; omega
+    refine ⟨cinv_transport hc hcon hfe' (fs_congr (s := s1) (s' := connect s1 n.blk.hash) rfl rfl hfs) hp', ?_, ?_, hfe', hadv⟩
     · intro h m hlm hg
       have htip : (connect s1 n.blk.hash).tip = n.blk.hash := rfl
       have hw : (connect s1 n.blk.hash).wsum n.blk.hash = n.workSum := by
@@ -238,11 +249,11 @@ theorem connectBest_spec {U D : List BlockAbs} {s : State} {n : Node} (hc : CInv
     · exact ⟨hi, hsc.1.2.1, hsc.1.2.2.1, hsc.1.2.2.2.1, hsc.1.2.2.2.2⟩
   -- generic facts when only flags changed and the new node cannot be on a good path
   have flagsOnly : ∀ s1 : State, SameChain s s1 → FlagExt s s1 → FlagsSound s1 →
-      (¬ GoodPath s1 n.blk.hash) → CInv U D s1 ∧ MaxAll s1 ∧ SameCore s s1 ∧ FlagExt s s1 := by
+      (¬ GoodPath s1 n.blk.hash) → CInv U D s1 ∧ MaxAll s1 ∧ SameCore s s1 ∧ FlagExt s s1 ∧ TipAdv s s1 := by
     intro s1 hsc hfe hfs hng
     have hi : s1.idx = s.idx := hsc.1.1
     have hpath1 : PathOK s1 s1.best := by rw [hsc.2.1]; exact pathOK_ext hi hfe hc.path
-    refine ⟨cinv_transport hc hi hfe hfs hpath1, ?_, hsc.1, hfe⟩
+    refine ⟨cinv_transport hc hi hfe hfs hpath1, ?_, hsc.1, hfe, Or.inl hsc.2.1⟩
     intro h m hlm hg
     have hw : s1.wsum s1.tip = s.wsum s.tip := by
       unfold State.wsum State.tip; rw [hi, hsc.2.1]
@@ -259,8 +270,8 @@ theorem connectBest_spec {U D : List BlockAbs} {s : State} {n : Node} (hc : CInv
     cases hv : (s.status n.blk.hash).valid with
     | true =>
       simp only [if_true]
-      obtain ⟨a, b, c, d⟩ := extend s (SameChain.refl s) (FlagExt.refl s) hc.fs hv hpt
-      exact ⟨a, b, c, d, by simp⟩
+      obtain ⟨a, b, c, d, e⟩ := extend s (SameChain.refl s) (FlagExt.refl s) hc.fs hv hpt
+      exact ⟨a, b, c, d, by simp, e⟩
     | false =>
       simp only [Bool.false_eq_true, if_false]
       cases hcc : n.blk.connOk with
@@ -268,9 +279,9 @@ theorem connectBest_spec {U D : List BlockAbs} {s : State} {n : Node} (hc : CInv
         simp only [if_true]
         have hv' : ((s.markValid n.blk.hash).status n.blk.hash).valid = true := by
           unfold State.markValid; rw [status_setSt]; simp
-        obtain ⟨a, b, c, d⟩ := extend (s.markValid n.blk.hash) (sameChain_setSt s _ _) (flagExt_markValid s _)
+        obtain ⟨a, b, c, d, e⟩ := extend (s.markValid n.blk.hash) (sameChain_setSt s _ _) (flagExt_markValid s _)
           (fs_markValid hc.fs hl hcc) hv' hpt
-        exact ⟨a, b, c, d, by simp⟩
+        exact ⟨a, b, c, d, by simp, e⟩
       | false =>
         simp only [Bool.false_eq_true, if_false]
         have hng : ¬ GoodPath (s.markFailed n.blk.hash) n.blk.hash := by
@@ -279,15 +290,15 @@ theorem connectBest_spec {U D : List BlockAbs} {s : State} {n : Node} (hc : CInv
           have : (s.markFailed n.blk.hash).idx = s.idx := rfl
           rw [this, hl] at hl'; cases hl'
           rw [hcc] at hc'; cases hc'
-        obtain ⟨a, b, c, d⟩ := flagsOnly (s.markFailed n.blk.hash) (sameChain_setSt s _ _) (flagExt_markFailed s _)
+        obtain ⟨a, b, c, d, e⟩ := flagsOnly (s.markFailed n.blk.hash) (sameChain_setSt s _ _) (flagExt_markFailed s _)
           (fs_markFailed hc.fs hl hcc) hng
-        refine ⟨a, b, c, d, fun _ => ?_⟩
+        refine ⟨a, b, c, d, fun _ => ?_, e⟩
         unfold State.markFailed; rw [status_setSt]; simp [Status.knownInvalid]
   · have hpt' : (n.blk.parent == s.tip) = false := by simpa using hpt
     simp only [hpt', Bool.false_eq_true, if_false]
     by_cases hle : n.workSum ≤ s.wsum s.tip
     · simp only [hle, if_true]
-      refine ⟨hc, ?_, SameCore.refl s, FlagExt.refl s, by simp⟩
+      refine ⟨hc, ?_, SameCore.refl s, FlagExt.refl s, by simp, Or.inl rfl⟩
       intro h m hlm hg
       by_cases e : h = n.blk.hash
       · subst e; rw [hl] at hlm; cases hlm; exact hle
@@ -328,7 +339,7 @@ theorem connectBest_spec {U D : List BlockAbs} {s : State} {n : Node} (hc : CInv
           apply iw_not_good (U := U)
           · rw [hsc1.1.1]; exact hc.idx
           · rw [hsc1.1.1]; exact hiwn
-        obtain ⟨a, b, c, d⟩ := flagsOnly _ hsc1 (flagExt_markAll s _) hfs1 hng
+        obtain ⟨a, b, c, d, e⟩ := flagsOnly _ hsc1 (flagExt_markAll s _) hfs1 hng
         -- reorganize with empty lists is the identity
         have hre : reorganize (markAllInvAnc s (good.map (·.blk.hash))) [] [] =
             ({ (markAllInvAnc s (good.map (·.blk.hash))) with
@@ -337,7 +348,7 @@ theorem connectBest_spec {U D : List BlockAbs} {s : State} {n : Node} (hc : CInv
           simp [reorganize, verify]
         rw [hre]
         simp only []
-        exact ⟨a, b, c, d, by simp⟩
+        exact ⟨a, b, c, d, by simp, e⟩
       · simp only [hgood, if_false]
         have hfork := seg_fork hseg
         rw [hfork]
@@ -372,8 +383,8 @@ theorem connectBest_spec {U D : List BlockAbs} {s : State} {n : Node} (hc : CInv
             apply iw_not_good (U := U)
             · rw [hi1]; exact hc.idx
             · exact hfsv.kIW _ hkm
-          obtain ⟨a, b, c, d⟩ := flagsOnly s1 hscv hfev hfsv hng
-          exact ⟨a, b, c, d, fun _ => hkm⟩
+          obtain ⟨a, b, c, d, e⟩ := flagsOnly s1 hscv hfev hfsv hng
+          exact ⟨a, b, c, d, fun _ => hkm, e⟩
         | ok =>
           simp only []
           have hall := hvok rfl
@@ -402,11 +413,11 @@ theorem connectBest_spec {U D : List BlockAbs} {s : State} {n : Node} (hc : CInv
               obtain ⟨v1, v2⟩ := hall m (List.mem_reverse.mpr hm)
               exact ⟨by rw [hst2]; exact v2, by rw [hst2]; exact v1, hz' m hm⟩
             · exact pathOK_ext hi2 hfe2 hptl
-          refine ⟨cinv_transport hc hi2 hfe2 hfs2 hp2, ?_, ?_, hfe2, by simp⟩
+          have htip : s2.tip = n.blk.hash := by
+            unfold State.tip; rw [hb2, hbr]; rfl
+          have hw : s2.wsum n.blk.hash = n.workSum := by apply wsum_eq; rw [hi2]; exact hl
+          refine ⟨cinv_transport hc hi2 hfe2 hfs2 hp2, ?_, ?_, hfe2, by simp, Or.inr (by rw [htip, hw]; omega)⟩
           · intro h m hlm hg
-            have htip : s2.tip = n.blk.hash := by
-              unfold State.tip; rw [hb2, hbr]; rfl
-            have hw : s2.wsum n.blk.hash = n.workSum := by apply wsum_eq; rw [hi2]; exact hl
             rw [htip, hw]
             rw [hi2] at hlm
             by_cases e : h = n.blk.hash
